@@ -2363,8 +2363,15 @@ void tNMEA2000::RespondISORequest(const tN2kMsg &N2kMsg, bool Addressed, unsigne
         SendProductInformation(iDev);
         break;
       case 126998L: /* Configuration information */
-        SendConfigurationInformation(iDev);
-        break;
+        if ( ConfigurationInformation.ManufacturerInformation!=0 ||
+             ConfigurationInformation.InstallationDescription1!=0 ||
+             ConfigurationInformation.InstallationDescription2!=0 ) {
+          SendConfigurationInformation(iDev);
+          break;
+        }
+        // No configuration information to provide: handle the request as any other PGN we
+        // can not serve, so that the NAK goes to the requester and only for an addressed request.
+        // fall through
       default:
         /* If user has established a handler */
         if (ISORqstHandler!=0) {
